@@ -43,6 +43,8 @@ type Task struct {
 	PanicStk string
 	Steps    int
 	blockedAt int // site at which the task is blocked (state tsBlocked)
+	FiredAt   time.Duration // timer-callback tasks: fake time at which the timer fired
+	IsTimer   bool
 }
 
 // StepRec is one scheduling step: which task was resumed at which site.
@@ -78,6 +80,8 @@ type Sim struct {
 	timeSens  bool          // a sleep/timer exists in this run
 	Stalls    int
 	TimeJumps int
+	sameRun      int // consecutive picks of the same task
+	FairSwitches int
 	sinceAdv  int // scheduling steps since fake time last advanced
 	Forced    int // forced time advances (a spinning task must not freeze the clock)
 	Switches  int // context switches (resumed task != previous task)
@@ -465,9 +469,6 @@ func (s *Sim) Run() string {
 		if s.stop {
 			return EndStopped
 		}
-		if alive == 0 {
-			return EndAllDone
-		}
 		if s.Steps >= s.MaxSteps {
 			return EndSteps
 		}
@@ -477,7 +478,11 @@ func (s *Sim) Run() string {
 		if len(run) == 0 {
 			// nothing runnable: let the fake clock run to the next timer; a full fake hour without any task
 			// becoming runnable means nothing can ever run again.
+			// (also when no task is alive: a timer that is still armed would start a new callback task)
 			if s.idleWait(time.Hour) {
+				if alive == 0 {
+					return EndAllDone
+				}
 				return EndQuiescent
 			}
 			s.TimeJumps++
@@ -512,7 +517,20 @@ func (s *Sim) Run() string {
 				}
 			}
 		}
-		t := cands[s.Tape.pick(s, cands)]
+		var t *Task
+		if s.sameRun >= 200 && len(cands) > 1 && cands[0] == s.current {
+			// fairness: a spinning task cannot monopolise the run token for ever (deterministic rule, both in
+			// exploration and in replay, where decisions past the end of the tape are 0 = "keep running")
+			t = cands[1+(s.Steps%(len(cands)-1))]
+			s.FairSwitches++
+		} else {
+			t = cands[s.Tape.pick(s, cands)]
+		}
+		if t == s.current {
+			s.sameRun++
+		} else {
+			s.sameRun = 0
+		}
 		s.Steps++
 		s.sinceAdv++
 		t.Steps++
@@ -638,7 +656,7 @@ func TimerTask(site int, f func()) func() {
 		}
 		fires++
 		t := &Task{ID: -1, Name: fmt.Sprintf("timer%d@%s", id, SiteName(site)), resume: make(chan struct{}),
-			state: tsParked, site: site, timerKey: [2]int{id, fires}, gid: goid()}
+			state: tsParked, site: site, timerKey: [2]int{id, fires}, gid: goid(), FiredAt: time.Since(s.start), IsTimer: true}
 		s.pendingNew = append(s.pendingNew, t)
 		s.mu.Unlock()
 		select {
